@@ -13,11 +13,11 @@ cd "$VERIF_DIR"
 REPO=${VERIF_REPO:-/repo}
 export VERIF_REPO=$REPO
 id=$(echo "$ID" | tr 'A-Z' 'a-z')
-BDIR=$(python3 tools/mkbuild.py "$REPO") || { echo "MACHINERY-ERROR: mkbuild failed"; exit 2; }
+BDIR=$(python3 tools/mkbuild.py "$REPO" "$id") || { echo "MACHINERY-ERROR: mkbuild failed"; exit 2; }
 mkdir -p "$BDIR/bin"
 RACE=""
 if [ "${VERIF_RACE:-}" = 1 ]; then RACE="-race"; fi
-if ! go build $RACE -tags verif -overlay "$BDIR/overlay.json" -modfile "$BDIR/go.mod" -o "$BDIR/bin/$id$RACE" "./checks/$id" 2> "$BDIR/build-$id.log"; then
+if ! go build $RACE -tags verif -overlay "$BDIR/overlay-$id.json" -modfile "$BDIR/go.mod" -o "$BDIR/bin/$id$RACE" "./checks/$id" 2> "$BDIR/build-$id.log"; then
   cat "$BDIR/build-$id.log"
   echo "MACHINERY-ERROR: build of checker $ID failed against $REPO"
   exit 2
